@@ -20,6 +20,8 @@ CountT(t, tys) == Cardinality({i \in 1..Len(tys) : tys[i] = t})
 St0 == [run |-> 0, recv |-> [s \in Steps |-> {}],     \* events handed to s: <<uid, ty>>
         used |-> {},                                  \* <<step, buf, uid, owner>>
         lists |-> {},                                 \* <<step, buf, owner>>
+        failed |-> {},                                \* <<step, owner>>: the invocation failed after it got its set (a retry
+                                                      \* competes for the buffer again; only a suspended invocation must see it again)
         bad |-> "ok"]
 
 Floor(a, b) == a \div b
@@ -43,6 +45,11 @@ Apply(s, r) ==
                                ELSE IF ~(us \subseteq {x[1] : x \in s0.recv[r.step]}) THEN "event_never_received"
                                ELSE IF clash THEN "event_in_two_lists"
                                ELSE @]
+    [] r.e = "collect_ret" /\ r.got = "none" ->
+         \* the same invocation (same input event) already got its full set: a re-execution must get it again
+         [s0 EXCEPT !.bad = IF <<r.step, r.buf, r.uid>> \in s0.lists /\ <<r.step, r.uid>> \notin s0.failed
+                            THEN "full_set_lost_on_reexecution" ELSE @]
+    [] r.e = "step_end" /\ r.failed -> [s0 EXCEPT !.failed = @ \cup {<<r.step, r.uid>>}]
     [] r.e = "drained" /\ r.live_run /\ r.open = 0 ->
          [s0 EXCEPT !.bad = IF \E x \in DOMAIN Tr.collect :
                                   Cardinality({y \in s0.lists : y[1] = x}) < Expectable(s0, x)
